@@ -52,8 +52,17 @@ def builder_stubs(cx, engine):
         return S.mk_result(engine, is_err, Blob("name"), Opaque("Error", "from:symbol", {"kind": "callee"}))
 
     def h_name_token(engine, st, fr, callee, argv, m):
+        # in the builders name_token is applied to a name that starts with a dot: not `nil` / `t`, so (c08_token_dispatch:
+        # those tokens arise only from exactly these names) the result is a keyword or a symbol
         st.events.append(("name_token", argv[1:]))
-        return Blob("token")
+        TK = cx.enums.get("Token")
+        if not TK:
+            return Blob("token")
+        d = z3.BitVec(seq(st, "tokkind"), 64)
+        c = z3.Or(d == TK.index("Keyword"), d == TK.index("Symbol"))
+        engine.solver.add(c)
+        st.pc.append(c)
+        return EnumV("Token", d, {TK.index("Keyword"): [Blob("kwname")], TK.index("Symbol"): [Blob("symname")]})
 
     def h_eat(engine, st, fr, callee, argv, m):
         st.events.append(("eat", st.notes.get("peeked") is not None))
